@@ -47,6 +47,8 @@ fn alphabet() -> Vec<Step> {
         Step { op: Op::RemoveOpts { key: 1, fully: false }, fl: Fl::Async },
         Step { op: Op::ForeignRecord { bucket_of: 0, key: 1, addr: a(2) }, fl: Fl::Sync },
         Step { op: Op::ForeignRecord { bucket_of: 1, key: 0, addr: a(1) }, fl: Fl::Sync },
+        Step { op: Op::ForeignTombstone { bucket_of: 0, key: 1 }, fl: Fl::Sync },
+        Step { op: Op::ForeignTombstone { bucket_of: 1, key: 0 }, fl: Fl::Sync },
     ]
 }
 
@@ -231,7 +233,7 @@ impl Engine for C05 {
     }
     fn exhaustive_note(&self, tier: Tier) -> String {
         format!(
-            "all histories of length 1..={} over a 12-symbol alphabet (2 keys + 1 never-written key, 3 values, sync and async); block-boundary, index-neighbour and long single-key histories; 24 histories that grow a bucket past 1 MiB, delete or tombstone it and grow it again, observed at marked points only{}",
+            "all histories of length 1..={} over a 14-symbol alphabet (2 keys + 1 never-written key, 3 values, sync and async); block-boundary, index-neighbour and long single-key histories; 24 histories that grow a bucket past 1 MiB, delete or tombstone it and grow it again, observed at marked points only{}",
             tier.pick(3, 4),
             tier.pick("", "; all length-5 histories over a 6-symbol sub-alphabet")
         )
@@ -277,7 +279,7 @@ impl Engine for C05 {
                 Op::Remove { key } | Op::IdxDelete { key } | Op::RemoveOpts { key, .. } => {
                     removed.insert(*key);
                 }
-                Op::ForeignRecord { .. } => nontrivial = true,
+                Op::ForeignRecord { .. } | Op::ForeignTombstone { .. } => nontrivial = true,
                 _ => {}
             }
             // observation frequency varies: "quiet" programs (and a third of all others) are
